@@ -896,3 +896,30 @@ def has_charby(e):
     s = set()
     collect_preds(e, s)
     return bool(s)
+
+
+# ------------------------------------------------------------------------------------------------ replay
+def replay(path, flags=(1, 0, 1)):
+    """re-run one recorded case (replays/C17-*.json) on the real code, the model and the oracle; True = all agree"""
+    import json
+    rp = json.load(open(path if os.path.isabs(path) else os.path.join(VERIF, path)))
+    tier, seed = rp.get("tier", "quick"), rp.get("seed", 1)
+    shards = make_shards(tier, seed)
+    sd = next(s for s in shards if s.name == rp["shard"])
+    sh = next(x for x in sd.shapes if x.sid == rp["shape_id"])
+    bindir, model_exe = build_all(tier, shards)
+    fill_preds(shards, bindir)
+    s = bytes.fromhex(rp["input_hex"]) if rp["input_hex"] != "-" else b""
+    line = "(in %s %s %d %d)\n" % (rp["form"], rp["input_hex"], rp["a"], rp["b"])
+    rc, impl, _ = run([os.path.join(bindir, sd.name)], input="(for %d)\n%s" % (sd.shapes.index(sh), line))
+    rc2, model, _ = run([model_exe], input="%s\n(clear)\n%s\n%s" % (sd.env.env_sexp(flags), shape_sexp(sd, sh), line))
+    want, _ = oracle_line(sh, rp["form"], s, rp["a"], rp["b"])
+    impl, model = impl.strip(), model.strip()
+    print("shape :", shape_sexp(sd, sh))
+    print("input :", repr(s.decode("utf8")), rp["form"], rp["a"], rp["b"])
+    print("impl  :", body_of(impl))
+    print("model :", body_of(model))
+    print("oracle:", want)
+    ok = body_of(impl) == want and impl == model
+    print("AGREE" if ok else "DISAGREE")
+    return ok
